@@ -1,7 +1,6 @@
 package c06
 
 import (
-	"fmt"
 	"sort"
 	"strings"
 	"time"
@@ -15,8 +14,9 @@ import (
 // A reduction step is accepted iff the reduced pair is still in the domain and
 // still fails in the same way (same class: missed / spurious / same error
 // class / same panic site). Every step strictly decreases
-// (#filter nodes + #flags + #object nodes + #non-UTC spellings + COUNT +
-// INTERVAL), so the loop terminates.
+// (#filter nodes + #flags + #object nodes + #non-UTC spellings + sub-second
+// range bounds + rule parts + COUNT + INTERVAL + distance of DTSTART from the
+// year 2200 / from UNTIL), so the loop terminates.
 // ---------------------------------------------------------------------------
 
 func shrink(f CompFilter, root Comp, class string) (CompFilter, Comp, int) {
@@ -164,6 +164,10 @@ func reduceRange(s, e *Time, k *int) bool {
 			s.Loc, e.Loc = "", ""
 			return true
 		}
+	}
+	if (s.Nanos != 0 || e.Nanos != 0) && hit(k) {
+		s.Nanos, e.Nanos = 0, 0
+		return true
 	}
 	return false
 }
@@ -313,8 +317,11 @@ func reduceComp(c *Comp, k *int) bool {
 	return false
 }
 
-// reduceRecurrence: drop the last instance, drop the first instance (shift
-// the event by one step), INTERVAL -> 1.
+// reduceRecurrence: drop COUNT / UNTIL; drop the last m instances, drop the first m instances
+// (shift the event by m steps) for m = the powers of two below the number of
+// instances, largest first; an endless series or one with UNTIL only loses
+// leading instances; INTERVAL -> 1. A series of thousands of instances is thus
+// cut down in a few dozen steps.
 func reduceRecurrence(c *Comp, k *int) bool {
 	if c.Name != "VEVENT" {
 		return false
@@ -332,46 +339,76 @@ func reduceRecurrence(c *Comp, k *int) bool {
 	if !ok {
 		return false
 	}
-	spell := func(r *recRule) string {
-		s := fmt.Sprintf("FREQ=%s;COUNT=%d", r.freq, r.count)
-		if r.ival != 1 {
-			s += fmt.Sprintf(";INTERVAL=%d", r.ival)
+	// shifting DTSTART (and DTEND) needs UTC spellings
+	shiftable := true
+	var start time.Time
+	for _, p := range c.Props {
+		if p.Name == "DTSTART" || p.Name == "DTEND" {
+			ct, why := parseCalTime(p)
+			if why != "" || !ct.abs || ct.spelling != "utc" {
+				shiftable = false
+			} else if p.Name == "DTSTART" {
+				start = ct.t
+			}
 		}
-		return s
 	}
-	if rr.count > 1 {
-		if hit(k) {
-			n := *rr
-			n.count--
-			c.Props[ri].Value = spell(&n)
-			return true
-		}
-		// drop the first instance: shift DTSTART (and DTEND) by one step
-		shiftable := true
-		for _, p := range c.Props {
+	shift := func(m int) {
+		for i, p := range c.Props {
 			if p.Name == "DTSTART" || p.Name == "DTEND" {
-				if ct, why := parseCalTime(p); why != "" || !ct.abs || ct.spelling != "utc" {
-					shiftable = false
-				}
+				ct, _ := parseCalTime(p)
+				c.Props[i] = dtProp(p.Name, ct.t.Add(time.Duration(m)*rr.step), "utc")
 			}
 		}
-		if shiftable && hit(k) {
-			n := *rr
-			n.count--
-			c.Props[ri].Value = spell(&n)
-			for i, p := range c.Props {
-				if p.Name == "DTSTART" || p.Name == "DTEND" {
-					ct, _ := parseCalTime(p)
-					c.Props[i] = dtProp(p.Name, ct.t.Add(rr.step), "utc")
-				}
+	}
+	// a series whose end plays no part in the failure is stated without one
+	if (rr.count != 0 || rr.hasUntil) && hit(k) {
+		n := *rr
+		n.count, n.hasUntil = 0, false
+		c.Props[ri].Value = n.spell()
+		return true
+	}
+	top := 1
+	switch {
+	case rr.count > 1:
+		for top*2 < rr.count {
+			top *= 2
+		}
+		for m := top; m >= 1; m /= 2 {
+			if hit(k) {
+				n := *rr
+				n.count -= m
+				c.Props[ri].Value = n.spell()
+				return true
 			}
-			return true
+			if shiftable && hit(k) {
+				n := *rr
+				n.count -= m
+				c.Props[ri].Value = n.spell()
+				shift(m)
+				return true
+			}
+		}
+	case rr.count == 0 && shiftable && !start.IsZero():
+		// the series keeps its end (if any); DTSTART moves towards it, never
+		// past UNTIL nor past the year 2200, so this comes to an end
+		limit := time.Date(2200, 1, 1, 0, 0, 0, 0, time.UTC)
+		if rr.hasUntil && rr.until.Before(limit) {
+			limit = rr.until
+		}
+		for m := 1 << 22; m >= 1; m /= 2 {
+			if time.Duration(m) > horizon/rr.step {
+				continue
+			}
+			if !start.Add(time.Duration(m)*rr.step).After(limit) && hit(k) {
+				shift(m)
+				return true
+			}
 		}
 	}
 	if rr.ival > 1 && hit(k) {
 		n := *rr
 		n.ival = 1
-		c.Props[ri].Value = spell(&n)
+		c.Props[ri].Value = n.spell()
 		return true
 	}
 	return false
@@ -433,11 +470,11 @@ func rangePattern(s, e Time, S, E time.Time, instant bool) string {
 // decisiveInstance picks the instance that explains the reference verdict:
 // the first overlapping one, or else the one nearest to the range.
 func decisiveInstance(f CompFilter, iv evInterval) (time.Time, time.Time) {
-	ins := iv.instances()
+	rs, re := f.Start.goTime(), f.End.goTime()
+	ins := iv.near(rs, f.Start.open())
 	if len(ins) == 0 {
 		return iv.S, iv.E
 	}
-	rs, re := f.Start.goTime(), f.End.goTime()
 	for _, in := range ins {
 		if overlaps(rs, re, f.Start.open(), f.End.open(), in[0], in[1], iv.instant) {
 			return in[0], in[1]
@@ -523,8 +560,13 @@ func compTRPattern(f CompFilter, named []Comp, deep bool) string {
 		S, E := iv.S, iv.E
 		if iv.rec != nil {
 			s += "|recurring"
-			if iv.rec.count > 1 {
+			switch {
+			case iv.rec.count > 1:
 				s += "(several instances)"
+			case iv.rec.hasUntil:
+				s += "(until)"
+			case iv.rec.count == 0:
+				s += "(endless)"
 			}
 			S, E = decisiveInstance(f, iv)
 		}
